@@ -123,15 +123,16 @@ type Entry struct {
 	ModeChange string
 }
 
-// Printed is the path column of the numstat line.
+// Printed is the path column of the numstat line (a path that holds a byte git does not print as it is comes
+// in C notation between double quotes, see QuoteC; for every other path this is the path itself).
 func (e Entry) Printed() string {
 	switch e.Kind {
 	case 'R':
-		return PrintRename(e.Old, e.New)
+		return PrintRenameC(e.Old, e.New)
 	case 'D':
-		return e.Old
+		return QuoteC(e.Old)
 	}
-	return e.New
+	return QuoteC(e.New)
 }
 
 // Mode is the create/delete mode the --summary block attaches to the path ("" otherwise).
@@ -605,6 +606,63 @@ func fillCounts(e *Entry, old, cur *File) {
 	e.Added, e.Deleted = lineDiff(old.Lines, cur.Lines)
 }
 
+// QuoteC is git's quote_c_style with core.quotepath at its default (true): a path that holds a control
+// character, DEL, a double quote, a backslash or a byte above 0x7f is printed between double quotes with
+// \a \b \t \n \v \f \r \" \\ for the bytes that have such a spelling and three octal digits for every other
+// such byte (each byte of a UTF-8 sequence on its own); any other path is printed as it is.
+func QuoteC(p string) string {
+	need := false
+	for i := 0; i < len(p); i++ {
+		if b := p[i]; b < 0x20 || b >= 0x7f || b == '"' || b == '\\' {
+			need = true
+			break
+		}
+	}
+	if !need {
+		return p
+	}
+	var sb strings.Builder
+	sb.WriteByte('"')
+	for i := 0; i < len(p); i++ {
+		switch b := p[i]; {
+		case b == '\a':
+			sb.WriteString(`\a`)
+		case b == '\b':
+			sb.WriteString(`\b`)
+		case b == '\t':
+			sb.WriteString(`\t`)
+		case b == '\n':
+			sb.WriteString(`\n`)
+		case b == '\v':
+			sb.WriteString(`\v`)
+		case b == '\f':
+			sb.WriteString(`\f`)
+		case b == '\r':
+			sb.WriteString(`\r`)
+		case b == '"':
+			sb.WriteString(`\"`)
+		case b == '\\':
+			sb.WriteString(`\\`)
+		case b < 0x20 || b >= 0x7f:
+			fmt.Fprintf(&sb, "\\%03o", b)
+		default:
+			sb.WriteByte(b)
+		}
+	}
+	sb.WriteByte('"')
+	return sb.String()
+}
+
+// PrintRenameC is git's pprint_rename for any two paths: when one of them needs C-style quoting git gives up
+// the brace notation and prints both full paths, each quoted on its own where it needs it:
+// `"d\303\244/f.txt" => "d\303\244/g.txt"`, `plain.txt => "pl\303\244n.txt"`; otherwise PrintRename.
+func PrintRenameC(a, b string) string {
+	if qa, qb := QuoteC(a), QuoteC(b); qa != a || qb != b {
+		return qa + " => " + qb
+	}
+	return PrintRename(a, b)
+}
+
 // PrintRename is git's pprint_rename: `a => b`, `pfx/{a => b}`, `{a => b}/sfx`,
 // `pfx/{a => b}/sfx` (paths that need no C-style quoting).
 func PrintRename(a, b string) string {
@@ -723,9 +781,9 @@ func Emulate(sim *Sim, hashes []string) string {
 		for _, e := range c.Entries {
 			switch e.Kind {
 			case 'A':
-				fmt.Fprintf(&sb, " create mode %s %s\n", (&File{Exec: e.Exec}).ModeString(), e.New)
+				fmt.Fprintf(&sb, " create mode %s %s\n", (&File{Exec: e.Exec}).ModeString(), QuoteC(e.New))
 			case 'D':
-				fmt.Fprintf(&sb, " delete mode %s %s\n", (&File{Exec: e.Exec}).ModeString(), e.Old)
+				fmt.Fprintf(&sb, " delete mode %s %s\n", (&File{Exec: e.Exec}).ModeString(), QuoteC(e.Old))
 			case 'R':
 				fmt.Fprintf(&sb, " rename %s (%d%%)\n", e.Printed(), e.Score)
 				if e.ModeChange != "" {
@@ -734,7 +792,7 @@ func Emulate(sim *Sim, hashes []string) string {
 				}
 			case 'M':
 				if e.ModeChange != "" {
-					fmt.Fprintf(&sb, " mode change %s %s\n", e.ModeChange, e.New)
+					fmt.Fprintf(&sb, " mode change %s %s\n", e.ModeChange, QuoteC(e.New))
 				}
 			}
 		}
